@@ -199,6 +199,42 @@ def snap_case_history(cid, rng, nv, nops, cache):
     return (ddgen.header(cid, "tdd", cache=cache, snap_each=True), ops)
 
 
+def wide_case(cid, rng):
+    """17..70 variables (the choices of eval are packed 16 per word): value tables are out of reach, so every
+    handle is followed as the expression that built it and eval is asked for sampled assignments"""
+    nv = rng.choice([17, 18, 24, 31, 32, 33, 40, 48, 49, 64, 65, 70])
+    ops = [f"VARS {nv}", "T3CONST h0 f", "T3CONST h1 u", "T3CONST h2 t"]
+    if rng.random() < 0.5:
+        o = list(range(nv)); rng.shuffle(o)
+        ops.append("ORDER " + " ".join(map(str, o)))
+    slots = [0, 1, 2]
+    nxt = 3
+    # variable handles: spread over all words of the packed vector
+    vs = sorted(set([0, nv - 1, 15, 16] + [rng.randrange(nv) for _ in range(8)]))
+    for v in vs:
+        ops.append(f"T3VAR h{nxt} {v}"); slots.append(nxt); nxt += 1
+    def asg():
+        return "".join(rng.choice("tuf") for _ in range(nv))
+    for h in slots[3:]:
+        for _ in range(3):
+            ops.append(f"T3EVALA h{h} {asg()}")
+    for _ in range(rng.randrange(10, 30)):
+        r = rng.random()
+        pick = lambda: rng.choice(slots)
+        if r < 0.15:
+            ops.append(f"T3NOT h{nxt} h{pick()}")
+        elif r < 0.3:
+            ops.append(f"T3ITE h{nxt} h{pick()} h{pick()} h{pick()}")
+        else:
+            ops.append(f"{rng.choice(T3_BIN)} h{nxt} h{pick()} h{pick()}")
+        slots.append(nxt); nxt += 1
+        for _ in range(4):
+            ops.append(f"T3EVALA h{nxt - 1} {asg()}")
+        if rng.random() < 0.1:
+            ops.append("GC")
+    return (ddgen.header(cid, "tdd", cache=rng.choice([16, 4096]), extra="wide=1"), ops)
+
+
 def snap_cases(ctx):
     rng = random.Random(ctx.seed * 7919 + 11)
     thorough = ctx.tier == "thorough"
@@ -216,6 +252,8 @@ def snap_cases(ctx):
     for _ in range(1500 if thorough else 150):
         nv = rng.choice([1, 2, 2, 3, 3, 4, 5])
         cases.append(snap_case_history(f"sh{cid}", rng, nv, rng.randrange(6, 14 * nv), rng.choice([4, 16, 4096]))); cid += 1
+    for _ in range(200 if thorough else 30):
+        cases.append(wide_case(f"sw{cid}", rng)); cid += 1
     return cases
 
 
@@ -328,7 +366,7 @@ def run(ctx):
         extra_cov={"cases_ok": ok, "cases_bad": len(bad), "tier": ctx.tier,
                    "table_model_cases_ok": sn_ok, "table_model_cases_bad": len(sn_bad),
                    "table_model_replay": {k: int(v) for k, v in ctx.stats.items() if k.startswith("c11s_")},
-                   "table_model_rule": "second stage (harness h_dd kind=tdd, driver ocaml/c11s_main.ml, extracted coq/DD/ApplyTdd.v): real TDD managers with 2 variables holding the 27 functions of x0 and the 27 functions of x1 (built from var, f/u/t and the connectives), per connective two (thorough: all four) of the (x0|x1, x0|x1) combinations x all 27x27 operand pairs, both variable orders, apply cache 16 / 1024; not, cofactors and eval of all 54 functions and the constants; 4 (thorough 24) cases of 1200 sampled ite triples (same variable, mixed, equal operands, constants); 150 (thorough 1500) random histories on 1..5 variables with a snapshot after every operation (operands: variables, constants, earlier results; gc, set_var_order, drops, eval, cofactors in between; apply cache 4 / 16 / 4096). Every snapshot is lifted and td_ok_b (hypothesis TdOK) evaluated; every not / connective / ite / const / var is (prop) compared with the extracted fixed table applied pointwise to the operands' value tables over all 3^n assignments, (pre) replayed by the extracted model on the snapshot before it with the real operand edges (same value table, same edge if it existed, real run creates no more nodes than the model, no node of the pre-state changed), (post) replayed on the first later snapshot with unchanged handles (the model must return the real edge and create nothing; association-list cache / no cache / pre-filled cache, three edge orders), (tree) the unfolding of the real result must equal the tree algorithm of coq/DD/Tdd.v on the unfolded operands; T3EVAL vs td_eval (packed choices) and td_eval_abs on all 3^n assignments with permuted / repeated arguments; T3COF vs td_cofactors"},
+                   "table_model_rule": "second stage (harness h_dd kind=tdd, driver ocaml/c11s_main.ml, extracted coq/DD/ApplyTdd.v): real TDD managers with 2 variables holding the 27 functions of x0 and the 27 functions of x1 (built from var, f/u/t and the connectives), per connective two (thorough: all four) of the (x0|x1, x0|x1) combinations x all 27x27 operand pairs, both variable orders, apply cache 16 / 1024; not, cofactors and eval of all 54 functions and the constants; 4 (thorough 24) cases of 1200 sampled ite triples (same variable, mixed, equal operands, constants); 150 (thorough 1500) random histories on 1..5 variables with a snapshot after every operation (operands: variables, constants, earlier results; gc, set_var_order, drops, eval, cofactors in between; apply cache 4 / 16 / 4096). Every snapshot is lifted and td_ok_b (hypothesis TdOK) evaluated; every not / connective / ite / const / var is (prop) compared with the extracted fixed table applied pointwise to the operands' value tables over all 3^n assignments, (pre) replayed by the extracted model on the snapshot before it with the real operand edges (same value table, same edge if it existed, real run creates no more nodes than the model, no node of the pre-state changed), (post) replayed on the first later snapshot with unchanged handles (the model must return the real edge and create nothing; association-list cache / no cache / pre-filled cache, three edge orders), (tree) the unfolding of the real result must equal the tree algorithm of coq/DD/Tdd.v on the unfolded operands; T3EVAL vs td_eval (packed choices) and td_eval_abs on all 3^n assignments with permuted / repeated arguments; T3COF vs td_cofactors; wide cases (30, thorough 200): managers with 17..70 variables (the choices vector of eval packs 16 variables per word), optional reordering, handles followed as the expressions that built them, eval under sampled assignments against the fixed tables applied to the expression"},
         assumptions=["eval is only checked on complete assignments (incomplete ones are outside C11)",
                      "two variables in the differential run; the theorems hold for any number of levels",
                      "first stage: the apply cache is not part of the tree model (results are compared, not cache contents); second stage: the real cache contents are not lifted (the table model is run with caches of its own; its theorems hold for every correct cache)",
